@@ -182,4 +182,4 @@ def run(ctx):
         ctx.sample({"base": [core.cond_text((b, a), names) for _, b, a in c["base"]], "weakly": c["weakly"],
                     "queries": [core.cond_text((b, a), names) for _, b, a in c["queries"]][:6]})
         for f in fs:
-            ctx.failures.append(shrink(f))
+            ctx.fail(f, shrink)
